@@ -203,12 +203,16 @@ pub const SHARDS: usize = 16;
 
 pub fn run(ctx: &Ctx) -> Report {
     if ctx.shard.is_none() {
-        return run_sharded(ctx, SHARDS, SHARDS);
+        let mut rep = run_sharded(ctx, SHARDS, SHARDS);
+        if ctx.tier == Tier::Thorough {
+            super::fuzzplay::campaign(ctx, "C04", &mut rep);
+        }
+        return rep;
     }
     let mut rep = Report::new();
     let corp = corpus::load(&ctx.verif);
     let table = std::cell::RefCell::new(Table { map: HashMap::new() });
-    let cases = ctx.tier.pick(120_000, 2_000_000) / ctx.shard_count() as u32;
+    let cases = ctx.tier.pick(120_000, 1_000_000) / ctx.shard_count() as u32;
     let max_len = ctx.tier.pick(100, 160);
     let strat = (ops_strategy(max_len), proptest::collection::vec(proptest::prelude::any::<u16>(), 4));
     run_prop(ctx, "c04-ops", cases, 3000, strat, &mut rep, |(case_, tp), rep| {
